@@ -66,6 +66,22 @@ NOTES = {
  "C20-4": "round 2", "C20-5": "round 2", "C20-6": "round 2; NOT reported: core Interval re-armed on absolute deadlines, so ticks missed by a slow observer are emitted back to back (a burst of windows for the native limiter) - timing / quota, not decided",
  "C16-1": "first missed; WATCHDOG-REARM added", "C16-2": "first missed; STATE-LEVEL added to C16 (the counter of a periodic source is per-subscription state)",
  "C20-2": "first missed by C20 (reported by C12): a change to core GroupBy; C20 now re-checks the core premises of the native limiter", "C20-3": "first missed by C20 (reported by C10/C02): a change to the core unicast subject; C20 now re-checks the core premises of the native limiter",
+ # round 4: changes that read as features or optimisations ("perf:", "feat:") rather than slips
+ "C04-12": "round 4; NOT reported: Sum computed through a float64 fold shared with Average (precision lost above 2^53) - value level",
+ "C05-12": "round 4; first missed; COMPLETION-COUNTED added",
+ "C06-13": "round 4; first missed; TEARDOWN-DOES-NOT-NOTIFY added - which also found the same dead-lock in GroupBy on the clean tree (known finding, demos/c06_groupby_reentrant_unsubscribe_test.go)",
+ "C07-12": "round 4; first missed; UNWRAP now checks that the wrapper constructors keep the cause on every path",
+ "C10-12": "round 4; NOT reported: a cached observer count beside the sync.Map drifts negative (unsubscribeAll stores 0, the teardowns then decrement) - agreement of a shadow counter with a collection, value level",
+ "C12-11": "round 4; first missed; MUTABLE-SEED added",
+ "C14-12": "round 4; first missed; POSITION-STABLE added (recorded slice positions vs compaction)",
+ "C15-11": "round 4; first missed; ATTEMPT-DECISION-ERROR-BLIND added",
+ "C16-11": "round 4; NOT reported: Interval emits every value that is 'due' with half a period of tolerance (value k up to interval/2 early) - timing arithmetic, value level",
+ "C16-12": "round 4; first missed by C16 (reported by C04); NO-POST-DELIVERY-MUTATION joined C16",
+ "C16-13": "round 4; first missed; TIMER-RESET-DRAINED added (the documented Reset contract of pre-1.23 channel timers)",
+ "C17-13": "round 4; first missed; FROM-CHANNEL now requires every receive from the caller's channel to be the two-value communication of a select",
+ "C18-12": "round 4; first missed; LIFT-RESULT added (every return of the item callback derives from the wrapped function)",
+ "C18-13": "round 4; first missed; CAPABILITY-WIDENING added",
+ "C19-11": "round 4; first missed; COUNT-ONCE now requires one unconditional update per counter handed to an aggregate",
 }
 
 rows = []
